@@ -120,8 +120,9 @@ func c06Bodies() []c06BodyGen {
 		"es-invalid":         `{"error":`,
 		"es-empty":           ``,
 	}
-	for name, js := range endStreams {
-		name, js := name, js
+	// (sorted: every worker process must enumerate the menu in the same order, cases are assigned to shards by index)
+	for _, name := range sortedKeys(endStreams) {
+		name, js := name, endStreams[name]
 		out = append(out, c06BodyGen{name, func(p Proto, kind Kind, j bool) []byte {
 			return append(c06Framed(p, kind, 0, c06ValidMsg(j)), refwire.Envelope(2, []byte(js))...)
 		}})
@@ -137,7 +138,8 @@ func c06Bodies() []c06BodyGen {
 		"wt-binary":     "\x00\x01\x02: \xff\r\n",
 		"wt-lf-only":    "grpc-status: 0\nx-a: b\n",
 	}
-	for name, block := range webTrailers {
+	for _, name := range sortedKeys(webTrailers) {
+		block := webTrailers[name]
 		name, block := name, block
 		out = append(out, c06BodyGen{name, func(p Proto, kind Kind, j bool) []byte {
 			return append(c06Framed(p, kind, 0, c06ValidMsg(j)), refwire.Envelope(0x80, []byte(block))...)
@@ -485,6 +487,15 @@ func TestC06(t *testing.T) {
 
 func sortedCopy(in []string) []string {
 	out := append([]string(nil), in...)
+	sort.Strings(out)
+	return out
+}
+
+func sortedKeys(m map[string]string) []string {
+	out := make([]string, 0, len(m))
+	for k := range m {
+		out = append(out, k)
+	}
 	sort.Strings(out)
 	return out
 }
